@@ -24,6 +24,9 @@ package scen
 //     model operation, checked by porcupine. After a crash cut, a torn write
 //     or an injected I/O error the drain may fail, else the fresh queue must be
 //     well-formed and hold only keys that were persisted (direct checks).
+//   * c19_keys.go: the keys are multihashes of any form (hash function code
+//     and digest length are drawn per run: uniform sha2-256, mixed, uniform
+//     other); generator only, every rule judges every key alike.
 //   * c19_restore.go: queues of many regions (bulk block, size classes), read
 //     faults in the middle of a drain (broken result stream, torn entry) and
 //     the rules that need no model state (dequeue-without-keys,
@@ -46,7 +49,6 @@ import (
 	"fmt"
 	"sort"
 	"strings"
-	"sync"
 	"sync/atomic"
 	"time"
 
@@ -77,7 +79,11 @@ func init() {
 			"probe_drain_additive_merge", "probe_persist_multi_batch", "probe_lin_checked",
 			"probe_persist_regions_over_10", "probe_persist_regions_over_16", "probe_persist_regions_over_40", "probe_persist_regions_over_100",
 			"probe_restart_strict_regions_over_10", "probe_restart_strict_regions_over_16", "probe_restart_strict_regions_over_40",
-			"probe_final_phase_checked", "probe_final_restart_compared", "probe_final_restart_regions_over_16", "probe_key_dequeued_again"),
+			"probe_final_phase_checked", "probe_final_restart_compared", "probe_final_restart_regions_over_16", "probe_key_dequeued_again",
+			// c19_keys.go: keys of other forms than sha2-256
+			"probe_keys_mixed_forms_run", "probe_keys_uniform_other_form_run",
+			"probe_persist_key_other_form", "probe_persist_key_code_multibyte", "probe_persist_key_length_multibyte", "probe_persist_region_key_sizes_differ",
+			"probe_restart_strict_key_other_form", "probe_restart_strict_key_code_multibyte", "probe_restart_strict_key_length_multibyte", "probe_restart_strict_region_key_sizes_differ"),
 	})
 	sim.Register(&sim.Scenario{Prop: "C19", Name: "provide-queue-ds-errors", Weight: 2, Run: func(s *sim.Sim) { runC19Provide(s, true, true) },
 		Real: real, Stub: append([]string{"datastore error injection (single failures, partial commits)"}, stub...),
@@ -99,40 +105,22 @@ func init() {
 }
 
 // ---------------------------------------------------------------------------
-// key pool: sha256 multihashes of "key-<i>", indexed by their Kademlia bits
+// key pool: multihashes made from "key-<i>" (sha2-256, or the forms of
+// c19_keys.go), indexed by their Kademlia bits
 
 type c19Pool struct {
 	mh   []mh.Multihash
 	bits []string // first 16 bits of the Kademlia identifier
 	idOf map[string]int
+	// c19_keys.go: the form of each key
+	variant  string
+	form     []uint8 // index into c19KeyForms
+	wideCode []bool  // the varint of its hash function code takes more than one byte
+	wideLen  []bool  // the varint of its digest length takes more than one byte
 }
 
-var (
-	c19PoolOnce sync.Once
-	c19ThePool  *c19Pool
-)
-
-func c19GetPool() *c19Pool {
-	c19PoolOnce.Do(func() {
-		p := &c19Pool{idOf: map[string]int{}}
-		for i := 0; i < c19PoolSize; i++ {
-			h, err := mh.Sum([]byte(fmt.Sprintf("key-%d", i)), mh.SHA2_256, -1)
-			if err != nil {
-				panic(err)
-			}
-			k := verifqueue.MhToBit256(h)
-			var b strings.Builder
-			for j := 0; j < 16; j++ {
-				b.WriteByte(byte('0' + k.Bit(j)))
-			}
-			p.mh = append(p.mh, h)
-			p.bits = append(p.bits, b.String())
-			p.idOf[string(h)] = i
-		}
-		c19ThePool = p
-	})
-	return c19ThePool
-}
+// c19GetPool returns the pool of sha2-256 keys.
+func c19GetPool() *c19Pool { return c19GetPoolVariant(0) }
 
 func (p *c19Pool) bitsOf(id c19ID) string { return p.bits[id] }
 
@@ -832,10 +820,14 @@ func (h *c19H) judge(reprov bool) {
 			if !st.havoc {
 				o.stRegions = len(st.ents)
 				c19SizeProbes(s, "probe_persist_regions", len(st.ents))
+				if o.errStr == "" {
+					h.keyFormProbes("persist", st.ents)
+				}
 			}
 		}
 		if o.kind == "restart" && !o.dirty && st.pk && o.errStr == "" {
 			c19SizeProbes(s, "probe_restart_strict_regions", len(st.pers))
+			h.keyFormProbes("restart_strict", o.dump)
 		}
 		if (o.kind == "restart" || o.kind == "drain") && !st.pk {
 			s.Count("probe_drain_after_error")
@@ -1153,7 +1145,7 @@ func runC19Provide(s *sim.Sim, withDS, dsErrors bool) {
 	if yield {
 		s.YieldSites["*"] = true
 	}
-	pool := c19GetPool()
+	pool := c19DrawPool(s) // the form of the keys is a drawn choice (c19_keys.go)
 	nClients := s.Range("clients", 1, 3)
 	nOps := s.Range("ops", 3, 28)
 	hot := c19HotPaths(s)
@@ -1176,7 +1168,7 @@ func runC19Provide(s *sim.Sim, withDS, dsErrors bool) {
 		bulkAt = s.Draw("bulk-at", nOps+1)
 	}
 	s.MaxSteps += 40 * len(bulk)
-	s.Summary["cfg"] = fmt.Sprintf("clients=%d ops=%d hot=%v tiny=%v yieldAll=%v ds=%v dsErrors=%v atomicBatch=%v namespaced=%v bulk=%d@%d", nClients, nOps, hot, tiny, yield, withDS, dsErrors, withDS && h.d.AtomicBatch, h.namespaced, len(bulk), bulkAt)
+	s.Summary["cfg"] = fmt.Sprintf("clients=%d ops=%d hot=%v tiny=%v yieldAll=%v ds=%v dsErrors=%v atomicBatch=%v namespaced=%v bulk=%d@%d keys=%s", nClients, nOps, hot, tiny, yield, withDS, dsErrors, withDS && h.d.AtomicBatch, h.namespaced, len(bulk), bulkAt, pool.variant)
 
 	// ---- workload
 	var ever []c19ID
